@@ -83,8 +83,12 @@ def run(ctx):
     fwd = comb.methods['forward']
     # R06a
     KEEP = ('shapes_dict', 'uniquify_leaf_modules', 'sample_alpha')
+    # both loops executed: two statement loops, or the outer loop around an inner sum over a
+    # comprehension / generator
     full = [p for p in returning(paths(repo, gc, keep=KEEP))
-            if sum(1 for e in p.events if e.kind == 'loopend') >= 2]
+            if sum(1 for e in p.events if e.kind == 'loopend') >= 2 or
+            (any(e.kind == 'loopend' for e in p.events) and p.retval is not None and
+             mentions(p.retval, lambda y: y[0] == 'comp'))]
     if not full:
         raise AnalysisError('SuperNetCombiner.get_cost: nested loop path not found')
     for p in full:
